@@ -57,6 +57,12 @@ func rebootPersistedStore(config *Config, log *zap.SugaredLogger, stats tally.Sc
 		}
 		if !ok {
 			log.With("key", key).Warn("Could not reboot blob from disk - its parent directory is there but the blob is missing")
+			// Remove what is left of the blob (e.g. after a crash in the middle of Create or Delete),
+			// otherwise the remains block creating or completing the same key again.
+			err = os.RemoveAll(pather.dirPath(key, complete))
+			if err != nil {
+				return nil, fmt.Errorf("remove remains of blob that could not be rebooted: %w", err)
+			}
 			continue
 		}
 		if b.complete && b.evictable {
